@@ -140,6 +140,33 @@ const reflectJS = `
     ["strmethod", "abc".charAt, "Function.prototype"], ["thisglobal", (function(){ return this; })(), "Object.prototype"]
   ];
   for(var i=0;i<links.length;i++){ var v=links[i][1]; lines.push("link\t"+links[i][0]+"\t"+links[i][2]+"\t"+(isObj(v)? protoName(v)+":"+cls(v) : "notobject:"+typeof v)); }
+  // behaviour of the special objects the language creates (never touches a built-in)
+  function idxlen(o){ var b=o.length; o[5]=1; var a=o.length; return (a===b || (a!==a && b!==b))? "same" : String(a); }
+  function setlen(o,v){ try { o.length=v; return "noerror"; } catch(e) { return e.name; } }
+  function shrink(o){ o[3]=1; try { o.length=1; } catch(e) {} return (3 in o)? "kept" : "deleted"; }
+  function beh(n,v){ lines.push("beh\t"+n+"\t\t"+v); }
+  var makers = [
+    ["arrlit", function(){ return [1,2]; }], ["newarr", function(){ return new Array(2); }], ["arrcall", function(){ return Array(1,2); }],
+    ["splitres", function(){ return "a,b".split(","); }], ["jsonarr", function(){ return JSON.parse("[1,2]"); }],
+    ["concatres", function(){ return [1].concat([2]); }]
+  ];
+  for(var i=0;i<makers.length;i++){
+    var n=makers[i][0], mk=makers[i][1];
+    beh(n+"_idxlen", idxlen(mk())); beh(n+"_lenneg", setlen(mk(),-1)); beh(n+"_lenfrac", setlen(mk(),1.5));
+    beh(n+"_lenbig", setlen(mk(),4294967296)); beh(n+"_shrink", shrink(mk()));
+  }
+  beh("objlit_idxlen", idxlen({})); beh("objlit_lenneg", setlen({},-1)); beh("objlit_shrink", shrink({}));
+  function mkargs(){ return (function(){ return arguments; })(1,2); }
+  beh("args_idxlen", idxlen(mkargs())); beh("args_shrink", shrink(mkargs()));
+  beh("args_class", cls(mkargs()));
+  beh("args_mapped", String((function(a){ arguments[0]=5; return a; })(1)));
+  (function(){ var a=mkargs(); var d=Object.getOwnPropertyDescriptor(a,"length"); beh("args_lenattrs", d? attrs(d) : "absent"); })();
+  (function(){ var f=function(){ return arguments; }; var a=f(); var d=Object.getOwnPropertyDescriptor(a,"callee"); beh("args_callee", d? ((d.value===f?"self":"other")+"|"+attrs(d)) : "absent"); })();
+  (function(){ var s=new String("ab"); var d=Object.getOwnPropertyDescriptor(s,"0"); beh("strobj_idx0", d? (d.value+"|"+attrs(d)) : "absent");
+    var l=Object.getOwnPropertyDescriptor(s,"length"); beh("strobj_len", l? (l.value+"|"+attrs(l)) : "absent");
+    s[0]="x"; beh("strobj_write", String(s[0])); beh("strobj_names", Object.getOwnPropertyNames(new String("ab")).sort().join(","));
+    beh("strobj_idxlen", idxlen(new String("ab"))); })();
+  beh("gmt_is_utc", String(Date.prototype.toGMTString===Date.prototype.toUTCString));
   return {lines: lines.join("\n"), nums: nums};
 })()
 `
@@ -150,6 +177,7 @@ type Dump struct {
 	Ent    map[string]map[string]string // owner -> property -> token
 	Order  map[string][]string          // owner -> own property names in getOwnPropertyNames order
 	ForIn  map[string]string            // subject -> keys
+	Beh    map[string]string            // behaviour name -> outcome
 	Link   map[string]string            // subject -> "<proto owner>:<[[Class]]>"
 	Static map[string]string            // hook facts: "bind <owner> <prop>" / "self <owner>" / "order" / "count" / "eval" -> token
 }
@@ -171,7 +199,7 @@ func reflectRuntime(vm *otto.Otto) (*Dump, error) {
 	lv, _ := res.Get("lines")
 	nv, _ := res.Get("nums")
 	nums := nv.Object()
-	d := &Dump{Own: map[string]map[string]string{}, Ent: map[string]map[string]string{}, Order: map[string][]string{}, ForIn: map[string]string{}, Link: map[string]string{}, Static: map[string]string{}}
+	d := &Dump{Own: map[string]map[string]string{}, Ent: map[string]map[string]string{}, Order: map[string][]string{}, ForIn: map[string]string{}, Link: map[string]string{}, Beh: map[string]string{}, Static: map[string]string{}}
 	fix := func(tok string) string {
 		// replace num:#k by num:<bits>
 		i := strings.Index(tok, "num:#")
@@ -211,6 +239,8 @@ func reflectRuntime(vm *otto.Otto) (*Dump, error) {
 			d.ForIn[f[1]] = f[3]
 		case "link":
 			d.Link[f[1]] = f[3]
+		case "beh":
+			d.Beh[f[1]] = f[3]
 		}
 	}
 	// facts read from the Go structures (hook VerifC14Static, build tag verif)
@@ -222,6 +252,10 @@ func reflectRuntime(vm *otto.Otto) (*Dump, error) {
 			d.Static["bind "+f[1]+" "+f[2]] = strings.Join(normClosures(f[3:]), ":")
 		case "self":
 			d.Static["self "+f[1]] = strings.Join(normClosures(f[2:]), ":")
+		case "kind": // owner prop class objectClass valueType
+			if len(f) == 6 {
+				d.Static["kind "+f[1]+" "+f[2]] = f[3] + ":" + f[4] + ":" + strings.TrimPrefix(f[5], "otto.")
+			}
 		case "order":
 			orderBad = append(orderBad, f[1])
 		case "count":
